@@ -231,6 +231,40 @@ func init() {
 								granted = false
 							}
 						}
+						// … and every condition under which a later composite step rejects BEFORE saving is already
+						// established when the first save runs: tested by the operation itself, or by an earlier
+						// step on the same arguments
+						if granted {
+							direct2, composite := core.Names(saveCalls...), core.Names(accm+"Transfer", accm+"ExecDeposit", accm+"ExecWithdraw", accm+"depositBalance", accm+"ExecIssueCoins", accm+"execDepositFrozen")
+							have := map[string]bool{}
+							for _, a := range rejectAtoms(r, f, direct2, composite, 3) {
+								have[a] = true
+							}
+							c := f.Ctx()
+							first := true
+							ast.Inspect(f.Body(), func(x ast.Node) bool {
+								call, ok := x.(*ast.CallExpr)
+								if !ok || !composite.Has(core.Callee(c.Info, call)) {
+									return true
+								}
+								if first {
+									first = false // the first composite step's own checks run before anything is saved
+									return true
+								}
+								callee := r.W.FuncOf(core.Callee(c.Info, call))
+								for _, a := range rejectAtoms(r, callee, direct2, composite, 3) {
+									for i := len(call.Args) - 1; i >= 0; i-- {
+										a = strings.ReplaceAll(a, fmt.Sprintf("$%d", i), "\x00"+strings.NewReplacer("(", "", ")", "").Replace(core.CanonExpr(c, call.Args[i]))+"\x00")
+									}
+									a = strings.ReplaceAll(a, "\x00", "")
+									if !have[a] {
+										granted = false
+										bad += fmt.Sprintf(" (the later step %s rejects on `%s`, which nothing has established before the first save)", core.ShortName(core.Callee(c.Info, call)), a)
+									}
+								}
+								return true
+							})
+						}
 						if granted {
 							r.Exception(label, why)
 							r.OK(label, r.W.Pos(f.Node().Pos()), "frozen exception: "+why)
